@@ -31,19 +31,20 @@ type progNode struct {
 }
 
 type program struct {
-	Inputs  []mon.GInput
-	Feed    map[string]*ref.T
-	Inits   []mon.GInit
-	Nodes   []progNode
-	Values  map[string]*ref.T          // reference value of every named tensor
-	Order   []string                   // names in production order (inputs, inits, node outputs)
-	IR      int64                      // ir_version of the rendered model (0 = the usual one)
-	Opsets  []*onnx.OperatorSetIdProto // opset imports of the rendered model (nil = the usual one)
-	NoNames bool                       // nodes are rendered without names
-	DeclOut int                        // 0: outputs declared by name only, 1: with their static shapes, 2: some under another rank
-	Shadow  map[string]bool            // initializers that are also graph inputs
-	nameSeq int
-	r       *gen.R
+	Inputs       []mon.GInput
+	Feed         map[string]*ref.T
+	Inits        []mon.GInit
+	Nodes        []progNode
+	Values       map[string]*ref.T          // reference value of every named tensor
+	Order        []string                   // names in production order (inputs, inits, node outputs)
+	IR           int64                      // ir_version of the rendered model (0 = the usual one)
+	Opsets       []*onnx.OperatorSetIdProto // opset imports of the rendered model (nil = the usual one)
+	NoNames      bool                       // nodes are rendered without names
+	SpellDomains bool                       // nodes carry their domain explicitly
+	DeclOut      int                        // 0: outputs declared by name only, 1: with their static shapes, 2: some under another rank
+	Shadow       map[string]bool            // initializers that are also graph inputs
+	nameSeq      int
+	r            *gen.R
 	// BatchAxis tracks, for C16 programs, the batch axis of every named tensor (-1: none / weight).
 	BatchAxis map[string]int
 }
@@ -122,7 +123,7 @@ func (p *program) addNode(n progNode, outHints ...string) ([]string, bool) {
 
 // Graph renders the program; outputs lists the declared graph outputs.
 func (p *program) Graph(outputs []string) *mon.Graph {
-	g := &mon.Graph{Inputs: p.Inputs, Inits: p.Inits, IR: p.IR, Opsets: p.Opsets, NoNames: p.NoNames}
+	g := &mon.Graph{Inputs: p.Inputs, Inits: p.Inits, IR: p.IR, Opsets: p.Opsets, NoNames: p.NoNames, SpellDomains: p.SpellDomains}
 	for _, n := range p.Nodes {
 		g.Nodes = append(g.Nodes, n.G)
 	}
@@ -792,6 +793,7 @@ func genProgramX(r *gen.R, maxNodes int, rich bool) *program {
 		p.NoNames = true
 	}
 	p.DeclOut = r.PickInt(0, 0, 0, 1, 2)
+	p.SpellDomains = r.Chance(0.25)
 	if rich && r.Chance(0.25) { // the default domain may be spelled "" or "ai.onnx"; other domains have their own versions
 		switch r.Intn(5) {
 		case 0:
